@@ -209,7 +209,8 @@ def swim_oracle(ctx, name, case, res):
             salt = a["salt"][i]
             if salt < 20:
                 ctx.oracle(dz > 0, "C16.salmon_lice.down_in_fresh", site, "salt %r but dZ=%r" % (salt, dz), cs)
-            elif salt >= 32 and Eb >= 0.0100001:
+            elif salt >= 32 and Eb >= 0.0100001 and b["z"][i] > 5e-4 * case["dt"] + 1e-9:
+                # (closer to the surface than one swimming step the louse is mirrored back below it)
                 ctx.oracle(dz < 0, "C16.salmon_lice.up_in_light", site, "light %r, salt %r but dZ=%r" % (Eb, salt, dz), cs)
             elif salt >= 32 and Eb < 0.0099999:
                 ctx.oracle(dz == 0, "C16.salmon_lice.moves_in_dark", site, "light %r, salt %r but dZ=%r" % (Eb, salt, dz), cs)
